@@ -83,6 +83,8 @@ pub enum Cmd {
     NotifSendSync { peer: PeerId, data: Vec<u8> },
     NotifSendAsync { peer: PeerId, data: Vec<u8> },
     NotifSetPolicy(u8),
+    /// answer a pending validation for `peer` now
+    NotifAnswer { peer: PeerId, accept: bool },
     /// stop polling the notification handle for this long (reader stall)
     NotifStall(Duration),
     Kad(KadCmd),
@@ -139,6 +141,20 @@ pub struct NodeSetup {
     pub substream_open_timeout: Option<Duration>,
     /// number of probe user protocols ("/vh/probe/<k>")
     pub probes: usize,
+    /// unique id of the case: node threads are named "case<id>-node<k>" so that panics can be attributed
+    pub case_id: u64,
+}
+
+static NEXT_CASE: std::sync::atomic::AtomicU64 = std::sync::atomic::AtomicU64::new(1);
+
+/// A fresh case id (for thread names / panic attribution).
+pub fn new_case_id() -> u64 {
+    NEXT_CASE.fetch_add(1, std::sync::atomic::Ordering::Relaxed)
+}
+
+/// Panics recorded on the node threads of this case.
+pub fn case_panics(case_id: u64) -> Vec<crate::engine::PanicRec> {
+    crate::engine::take_panics_with_prefix(&format!("case{case_id}-"))
 }
 
 pub struct Node {
@@ -252,7 +268,7 @@ impl Node {
         let rt = tokio::runtime::Builder::new_multi_thread()
             .worker_threads(1)
             .enable_all()
-            .thread_name(format!("case-node{index}"))
+            .thread_name(format!("case{}-node{index}", setup.case_id))
             .build()
             .map_err(|e| e.to_string())?;
         let (cmd_tx, cmd_rx) = mpsc::unbounded_channel::<Cmd>();
@@ -493,6 +509,12 @@ async fn node_main(
                         }
                     }
                     Cmd::NotifSetPolicy(p) => notif_policy = p,
+                    Cmd::NotifAnswer { peer, accept } => {
+                        if let Some(h) = notif.as_mut() {
+                            h.send_validation_result(peer, if accept { ValidationResult::Accept } else { ValidationResult::Reject });
+                            push(&log, index, ObsKind::NotifApi { what: format!("answer {peer} {accept}"), ok: true });
+                        }
+                    }
                     Cmd::NotifStall(d) => notif_stall_until = Some(Instant::now() + d),
                     Cmd::Ping(tx) => { let _ = tx.send(()); }
                     Cmd::Kad(k) => {
